@@ -864,7 +864,8 @@ class Interp:
         return None
 
     def eval_GeneratorExp(self, e):
-        return self.B.comprehension(self, e.elt, e.generators, "gen")
+        # evaluated eagerly, but handed out as a ONE-SHOT iterator: a second iteration finds it exhausted (Python semantics)
+        return self.B.IterVal(self.B.comprehension(self, e.elt, e.generators, "gen"))
 
     def eval_ListComp(self, e):
         return self.B.comprehension(self, e.elt, e.generators, "list")
